@@ -146,3 +146,156 @@ Check C02_typed_documents : forall E ext_parse s,
   TypedSpecP.tvalue (TypedDocs.parse_removal E ext_parse s) /\ TypedSpecP.tvalue (TypedDocs.parse_buildinfo E ext_parse s) /\
   TypedSpecP.tvalue (TypedDocs.parse_dep3 E ext_parse s) /\ TypedSpecP.tvalue (TypedDocs.parse_repositories E ext_parse s).
 Print Assumptions C02_typed_documents.
+
+(* ================================================================== the BYTE level
+   Rust slices `&str` at byte offsets and panics when an offset is not a character boundary.
+   model/Utf8.v gives the scalar-value strings their byte offsets (`is_boundary`, `split_at_b`,
+   `slice_*_b`, `find_b`: Panic off a boundary or out of range); model/ByteLex.v and
+   model/ByteVcs.v transcribe lex_ (src/lex.rs), ParsedVcs::from_str (vcs.rs) and the
+   `source[..1]` of get_pool_path (changes.rs) with every slice the source performs, and the
+   slices themselves are re-read from the source on every run (translate/bytesites.py ->
+   gen/ByteSites_gen.v).  Theorems below: for EVERY string no slice panics, and the byte-level
+   functions compute what the char-level models (compared with the code by the streams) compute. *)
+From V.model Require Import Utf8 ByteLex ByteVcs.
+From V.gen Require Import Classes_gen ByteSites_gen.
+From V.proofs Require Import Utf8P ByteLexP ByteVcsP.
+
+(* `is_boundary` is str::is_char_boundary as core::str computes it on the encoded bytes, and
+   `split_at_b` yields a value exactly on a boundary (the split at the byte length of a prefix) *)
+Theorem C02_boundary_is_bytes : forall (s : str) (off : nat),
+  is_boundary s off = is_char_boundary_bytes (enc s) off /\
+  (if is_boundary s off then exists a b, split_at_b s off = Ok (a, b) /\ a ++ b = s /\ len_b a = off
+   else exists n, split_at_b s off = Panic n).
+Proof.
+  intros s off. split; [apply is_boundary_bytes|].
+  pose proof (split_at_b_boundary s off) as H. destruct (is_boundary s off); [|exact H].
+  destruct H as (a & b & H). exists a, b. split; [exact H|]. exact (split_at_b_ok s off a b H).
+Qed.
+Check C02_boundary_is_bytes : forall (s : str) (off : nat),
+  is_boundary s off = is_char_boundary_bytes (enc s) off /\
+  (if is_boundary s off then exists a b, split_at_b s off = Ok (a, b) /\ a ++ b = s /\ len_b a = off
+   else exists n, split_at_b s off = Panic n).
+Print Assumptions C02_boundary_is_bytes.
+
+(* Why the constant-width slices of lex_ are safe: the guards in front of `&input[1..]` and
+   `split_at(1)` force a ONE-BYTE character.  Stated over the classes regenerated from
+   src/common.rs: a class that grows a member >= 128 (U+0085 in is_newline, say) breaks this. *)
+Theorem C02_one_byte_guards : forall c : N,
+  (is_newline_src c = true -> ulen c = 1) /\ (is_indent_src c = true -> ulen c = 1) /\
+  ulen 58 = 1 /\
+  (is_valid_initial_key_char_src c = true -> is_valid_key_char_src c = true).
+Proof.
+  intros c. split; [apply is_newline_src_one_byte|]. split; [apply is_indent_src_one_byte|].
+  split; [exact colon_one_byte|apply initial_key_char_src_is_key_char].
+Qed.
+Check C02_one_byte_guards : forall c : N,
+  (is_newline_src c = true -> ulen c = 1) /\ (is_indent_src c = true -> ulen c = 1) /\
+  ulen 58 = 1 /\
+  (is_valid_initial_key_char_src c = true -> is_valid_key_char_src c = true).
+Print Assumptions C02_one_byte_guards.
+
+(* lex / lex_inline at the byte level: a token list for every input (no slice off a boundary or
+   out of range, fuel suffices), and it is the char-level lexer's token list *)
+Theorem C02_bytelex_safe : forall (start_of_line : bool) (s : str),
+  exists ts, bytelex_ start_of_line s = Ok ts /\ Deb822Lex.lex_ start_of_line s = Ok ts.
+Proof. exact bytelex_safe. Qed.
+Check C02_bytelex_safe : forall (start_of_line : bool) (s : str),
+  exists ts, bytelex_ start_of_line s = Ok ts /\ Deb822Lex.lex_ start_of_line s = Ok ts.
+Print Assumptions C02_bytelex_safe.
+
+(* ... for the arms (guards, slices, predicates, state updates, kinds, order) that
+   translate/bytesites.py read from src/lex.rs on this run; the written-out closure
+   ByteLex.blex_step is that table *)
+Theorem C02_bytelex_source :
+  lex_sites_recognised = true /\ lex_arms_src = lex_arms /\
+  (forall st input c, tstep lex_arms_src st input c = blex_step st input c) /\
+  (forall (start_of_line : bool) (s : str), exists ts,
+     tlex_go lex_arms_src (length s) (bst_init start_of_line) s = Ok ts /\
+     Deb822Lex.lex_ start_of_line s = Ok ts).
+Proof.
+  split; [exact (proj1 lex_arms_src_ok)|]. split; [exact (proj2 lex_arms_src_ok)|].
+  split; [rewrite (proj2 lex_arms_src_ok); exact tstep_lex_arms|exact bytelex_src_safe].
+Qed.
+Check C02_bytelex_source :
+  lex_sites_recognised = true /\ lex_arms_src = lex_arms /\
+  (forall st input c, tstep lex_arms_src st input c = blex_step st input c) /\
+  (forall (start_of_line : bool) (s : str), exists ts,
+     tlex_go lex_arms_src (length s) (bst_init start_of_line) s = Ok ts /\
+     Deb822Lex.lex_ start_of_line s = Ok ts).
+Print Assumptions C02_bytelex_source.
+
+(* the defect fixed by d200b95, at the level where it lives: the lexer whose ERROR arm is
+   `split_at(1)` panics on "é", and on every input that starts with a multi-byte character *)
+Theorem C02_bytelex_prefix_refuted :
+  bytelex_prefix [233%N] = Panic site_not_boundary /\
+  (forall (c : N) (r : str), (128 <= c)%N -> bytelex_prefix (c :: r) = Panic site_not_boundary).
+Proof. split; [exact bytelex_prefix_refuted|exact bytelex_prefix_panics]. Qed.
+Check C02_bytelex_prefix_refuted :
+  bytelex_prefix [233%N] = Panic site_not_boundary /\
+  (forall (c : N) (r : str), (128 <= c)%N -> bytelex_prefix (c :: r) = Panic site_not_boundary).
+Print Assumptions C02_bytelex_prefix_refuted.
+
+(* ParsedVcs::from_str at the byte level (m.as_str()[2..len-1], s[..m.start()], s[m.end()..],
+   split_at(find(" -b ")), branch_str[4..]; constants and literals as read from vcs.rs on this
+   run): the char-level result, hence a value, for every input.  This replaces the reading of
+   C02_parsed_vcs above, whose model cannot express a boundary panic. *)
+Theorem C02_parsed_vcs_bytes :
+  vcs_sites_recognised = true /\
+  vcs_regex_src = [32; 92; 91; 40; 91; 94; 93; 32; 93; 43; 41; 92; 93]%N /\
+  (forall s : str,
+     parsed_vcs_from_str_k vcs_sub_from_src vcs_sub_back_src vcs_branch_from_src vcs_find_lit_src s
+       = parsed_vcs_from_str s /\
+     exists v, parsed_vcs_from_str_k vcs_sub_from_src vcs_sub_back_src vcs_branch_from_src vcs_find_lit_src s = Ok v).
+Proof.
+  split; [exact (proj1 vcs_sites_src_ok)|]. split; [exact (proj1 (proj2 (proj2 vcs_sites_src_ok)))|].
+  intros s. split; [exact (pvcs_bytes_src s)|]. rewrite (pvcs_bytes_src s). apply pvcs_total.
+Qed.
+Check C02_parsed_vcs_bytes :
+  vcs_sites_recognised = true /\
+  vcs_regex_src = [32; 92; 91; 40; 91; 94; 93; 32; 93; 43; 41; 92; 93]%N /\
+  (forall s : str,
+     parsed_vcs_from_str_k vcs_sub_from_src vcs_sub_back_src vcs_branch_from_src vcs_find_lit_src s
+       = parsed_vcs_from_str s /\
+     exists v, parsed_vcs_from_str_k vcs_sub_from_src vcs_sub_back_src vcs_branch_from_src vcs_find_lit_src s = Ok v).
+Print Assumptions C02_parsed_vcs_bytes.
+
+(* Changes::get_pool_path, `source[..1]`: a value exactly when the name starts with a one-byte
+   character — the Panic 5 of the char-level model Accessors.changes_get_pool_path (a recorded
+   behaviour, not a totality claim: get_pool_path is not a text-parsing entry point) *)
+Theorem C02_pool_prefix_bytes :
+  pool_sites_recognised = true /\
+  forall (lower : N -> N) (source : str),
+    res_sim (pool_prefix_k pool_prefix_src lower source)
+            (match source with
+             | [] => Panic 5%N
+             | x :: _ => if (x <? 128)%N then Ok [lower x] else Panic 5%N
+             end).
+Proof. split; [exact (proj1 (proj2 vcs_sites_src_ok))|exact pool_prefix_bytes_src]. Qed.
+Check C02_pool_prefix_bytes :
+  pool_sites_recognised = true /\
+  forall (lower : N -> N) (source : str),
+    res_sim (pool_prefix_k pool_prefix_src lower source)
+            (match source with
+             | [] => Panic 5%N
+             | x :: _ => if (x <? 128)%N then Ok [lower x] else Panic 5%N
+             end).
+Print Assumptions C02_pool_prefix_bytes.
+
+(* Non-vacuity: 2-, 3- and 4-byte characters (U+00E9, U+20AC, U+1F600) in every position class —
+   column 0, right after a key, in a value, after an indent (space and tab), right after the
+   colon, in a comment, at end of input: 31 characters, 64 bytes, 20 tokens; the pre-fix lexer
+   panics on the same input; ParsedVcs with a multi-byte URL, branch and subpath. *)
+Definition C02_bytes_ex : str :=
+  [233; 8364; 128512; 10;  65; 233; 8364; 128512; 58; 32; 120; 233; 8364; 128512; 10;
+   32; 233; 8364; 128512; 10;  9; 128512; 10;  66; 58; 8364; 10;  35; 233; 10;  128512]%N.
+Example C02_bytes_ex_lex :
+  exists ts, bytelex C02_bytes_ex = Ok ts /\ Deb822Lex.lex C02_bytes_ex = Ok ts /\
+    map (fun t => Deb822Lex.kind_code (fst t)) ts = [7; 7; 7; 4; 0; 1; 4; 3; 1; 4; 3; 1; 4; 0; 2; 1; 4; 6; 4; 7]%N /\
+    length C02_bytes_ex = 31 /\ len_b C02_bytes_ex = 64 /\
+    bytelex_prefix C02_bytes_ex = Panic site_not_boundary.
+Proof. vm_compute. eexists. repeat split. Qed.
+Example C02_bytes_ex_vcs :      (* "é -b € [😀]" *)
+  parsed_vcs_from_str_b [233; 32; 45; 98; 32; 8364; 32; 91; 128512; 93]%N =
+    Ok {| repo_url := [233%N]; branch := Some [8364%N]; subpath := Some [128512%N] |} /\
+  parsed_vcs_from_str_k 3 1 4 lit_dash_b [117; 32; 91; 233; 93]%N = Panic site_not_boundary.
+Proof. split; reflexivity. Qed.
